@@ -833,47 +833,57 @@ def judge_conn(c, obs, eof, timed_out, f28_ok, counts):
 
 
 def run_e2e(ctx, hb, rng, n_scen, f28_ok, counts):
-    scen = gen_e2e_scenarios(rng, n_scen)
-    predict(ctx, scen)
-    ops = ["reset"] + ["route %s %s %s" % (m, hexs(p), s) for m, p, s in E2E_ROUTES] + ["e2e start"]
-    for s in scen:
-        ops.append("e2e run 4000 25 " + " ".join(conn_spec(c) for c in s["conns"]))
-    ops.append("e2e stop")
-    out, rc, err = ctx.run_lines([hb], ops, timeout=1500)
-    base = 1 + len(E2E_ROUTES)
-    if len(out) <= base or out[base] != "ok":
-        raise RuntimeError("e2e server did not start: %s %s" % (out[base:base + 1], err[-300:]))
+    scen_all = gen_e2e_scenarios(rng, n_scen)
+    predict(ctx, scen_all)
+    setup = ["reset"] + ["route %s %s %s" % (m, hexs(p), s) for m, p, s in E2E_ROUTES] + ["e2e start"]
+    base = len(setup)
     nreq = 0
-    for si, s in enumerate(scen):
-        li = base + 1 + si
-        line = out[li] if li < len(out) else "crash:" + str(rc)
-        parts = line.split()
-        ctx.cov["traces_validated_against_impl"] += 1
-        for ci, c in enumerate(s["conns"]):
-            nreq += len(c["reqs"])
-            if ci >= len(parts) or parts[ci].count(":") < 2:
-                ctx.violation("property", "O1: end-to-end run died or a client could not connect: %s" % line[:120],
-                              {"scenario": scen_json(s), "observed": line[:400], "stderr": err[-800:]}, found_input=True)
-                continue
-            hx, eof, to = parts[ci].rsplit(":", 2)
-            if hx.startswith("big:"):
-                continue
-            obs = unhex(hx)
-            bad, hyp = judge_conn(c, obs, eof == "1", to == "1", f28_ok, counts)
-            ctx.count_case(b"".join(r["data"] for r in c["reqs"]) + c["mode"].encode(), nontrivial=len(c["reqs"]) > 0)
-            if hyp and not f28_ok and not bad:
-                bad = ["O3: pipelined responses out of order / lost behind a close, and finding F28 is not listed in KNOWN_FINDINGS.txt"]
-            if bad and ctx.violation_budget("property", bad[0]):
-                ctx.violation("property", bad[0], {"connection": conn_json(c), "observed_hex": hx[:4000], "eof": eof, "timed_out": to, "failures": bad[:5],
-                                                   "routes": [[m, p.decode(), s] for m, p, s in E2E_ROUTES],
-                                                   "expected_by_model": [r["pred_line"][:200] for r in c["reqs"]]}, found_input=True)
-            elif bad:
-                ctx.violation("property", bad[0])
-    counts["e2e_scenarios"] = counts.get("e2e_scenarios", 0) + len(scen)
+    reported = 0
+    batch = 40
+    for b0 in range(0, len(scen_all), batch):
+        if reported >= 6:
+            # every further scenario would only cost watchdog time (a server that has stopped answering stays that way)
+            ctx.notes.append("end-to-end: %d scenarios not run after %d reported failures" % (len(scen_all) - b0, reported))
+            break
+        scen = scen_all[b0:b0 + batch]
+        ops = setup + ["e2e run 4000 25 " + " ".join(conn_spec(c) for c in s["conns"]) for s in scen] + ["e2e stop"]
+        out, rc, err = ctx.run_lines([hb], ops, timeout=1500)
+        if len(out) <= base - 1 or out[base - 1] != "ok":
+            raise RuntimeError("e2e server did not start: %s %s" % (out[base - 1:base], err[-300:]))
+        for si, s in enumerate(scen):
+            li = base + si
+            line = out[li] if li < len(out) else "crash:" + str(rc)
+            parts = line.split()
+            ctx.cov["traces_validated_against_impl"] += 1
+            for ci, c in enumerate(s["conns"]):
+                nreq += len(c["reqs"])
+                if ci >= len(parts) or parts[ci].count(":") < 2:
+                    reported += 1
+                    ctx.violation("property", "O1: end-to-end run died or a client could not connect: %s" % line[:120],
+                                  {"scenario": scen_json(s), "observed": line[:400], "stderr": err[-800:]}, found_input=True)
+                    continue
+                hx, eof, to = parts[ci].rsplit(":", 2)
+                if hx.startswith("big:"):
+                    continue
+                obs = unhex(hx)
+                bad, hyp = judge_conn(c, obs, eof == "1", to == "1", f28_ok, counts)
+                ctx.count_case(b"".join(r["data"] for r in c["reqs"]) + c["mode"].encode(), nontrivial=len(c["reqs"]) > 0)
+                if hyp and not f28_ok and not bad:
+                    bad = ["O3: pipelined responses out of order / lost behind a close, and finding F28 is not listed in KNOWN_FINDINGS.txt"]
+                if bad:
+                    reported += 1
+                if bad and ctx.violation_budget("property", bad[0]):
+                    ctx.violation("property", bad[0], {"connection": conn_json(c), "observed_hex": hx[:4000], "eof": eof, "timed_out": to, "failures": bad[:5],
+                                                       "routes": [[m, p.decode(), s] for m, p, s in E2E_ROUTES],
+                                                       "expected_by_model": [r["pred_line"][:200] for r in c["reqs"]]}, found_input=True)
+                elif bad:
+                    ctx.violation("property", bad[0])
+        counts["e2e_scenarios"] = counts.get("e2e_scenarios", 0) + len(scen)
+        if rc != 0:
+            reported += 1
+            ctx.violation("property", "O1: the end-to-end harness (real server on loopback) ended abnormally: rc=%s %s" % (rc, err[-200:].replace("\n", " ")),
+                          {"stderr": err[-2000:]}, found_input=False)
     counts["e2e_requests"] = counts.get("e2e_requests", 0) + nreq
-    if rc != 0:
-        ctx.violation("property", "O1: the end-to-end harness (real server on loopback) ended abnormally: rc=%s %s" % (rc, err[-200:].replace("\n", " ")),
-                      {"stderr": err[-2000:]}, found_input=False)
 
 
 def conn_json(c):
